@@ -295,7 +295,9 @@ def run_leg(rep, tier):
         ops = history(rng, rng.randrange(6, 26))
         if i == 0:
             # whatever the seed: one exactly-filled fixed buffer (the terminator lands on the last byte)
-            ops = [("tok", 11), ("make", 12), ("describe_fixed", 12, 2, 0)] + [o for o in ops if not (len(o) > 1 and o[0] not in ("take_slice", "take_str", "call_cb", "alloc_free", "take_holder") and o[1] in (11, 12))] + [("destroy", 12)]
+            # ... and write-outs long enough to make the C++ wrapper's std::string leave its in-object buffer (16+ bytes) and then
+            # grow again on the heap (the grow callback hands Rust a pointer that must be the one AFTER the resize)
+            ops = [("tok", 11), ("make", 12), ("describe_fixed", 12, 2, 0), ("describe", 12, 0, 5), ("describe", 12, 1, 40)] + [o for o in ops if not (len(o) > 1 and o[0] not in ("take_slice", "take_str", "call_cb", "alloc_free", "take_holder") and o[1] in (11, 12))] + [("destroy", 12)]
         evs = execute("c", i, ops, c_driver(ops))
         if evs is None:
             return
